@@ -55,7 +55,20 @@ def handle (args : List String) (obs : String) : Option Reply := do
     let model := s!"C{cseg} O{hexS p.out}"
     -- spec (C20): every statistics row splits on " │ " into exactly six cells that are the given ones
     let implOut := str (((o.find? (·.startsWith "O")).map fun w => (w.drop 1).toString).getD "-")
-    let v := if implOut.isEmpty ∧ !ops.isEmpty then bad "nothing was printed" else "ok"
+    -- continuation rows: every allocation section computed for a benchmark is printed (label row), nothing else
+    let contLabels : List String := (implOut.splitOn "\n").filterMap fun l =>
+      let cs := l.toList.dropWhile fun c => c = '│' || c = ' '
+      let first := String.ofList (cs.takeWhile (· ≠ '│'))
+      let lab := first.trimAscii.toString
+      if (l.startsWith "│" ∨ l.startsWith " ") ∧ lab.endsWith ":" then some lab else none
+    let wantLabels : List String := blocks.flatMap fun b =>
+      (if b.maxAlloc.isSome then ["max alloc:"] else []) ++ b.tallies.filterMap fun (n, t) => if t.isSome then some n else none
+    let kinds := ["max alloc:", "alloc:", "dealloc:", "grow:", "shrink:"]
+    let badKind := kinds.find? fun k => contLabels.count k ≠ wantLabels.count k
+    let v := if implOut.isEmpty ∧ !ops.isEmpty then bad "nothing was printed"
+      else match badKind with
+        | some k => bad s!"[C20] the allocation rows printed under the benchmarks are not the ones computed for them (`{k}` sections: printed {contLabels.count k}, computed {wantLabels.count k})"
+        | none => "ok"
     some { model := model, verdict := v,
            tag := if ops.length ≤ 2 then "trivial-small" else s!"{if widths.all (· == 0) then "plain" else "cols"}-d{min depthMax 6}-s{min nS 5}" }
   | _ => none
